@@ -58,7 +58,10 @@ def strip(trace: dict, prop: str) -> dict:
         if "result" in e:
             e["result"] = {k: v for k, v in e["result"].items() if k != "layout"}
         evs.append(e)
-    return {"cfg": trace["cfg"], "events": evs}
+    out = {"cfg": trace["cfg"], "events": evs}
+    if trace.get("meta", {}).get("real") is not None:
+        out["real"] = True
+    return out
 
 
 def corrupt_for(prop: str):
@@ -167,7 +170,7 @@ def replay_case(ctx, payload: dict) -> int:
     kw = {"cfg": case["cfg"], "construction": meta.get("construction", "python"),
           "debug": meta.get("debug", False), "hier": meta.get("hier", False),
           "readout_how": meta.get("readout", "list"), "yaml_order": meta.get("yaml_order", "canonical"),
-          "kind": meta.get("detector", "ccd")}
+          "kind": meta.get("detector", "ccd"), "real": meta.get("real"), "extra": meta.get("extra")}
     tr = runner.record_exposure(**kw)
     print(json.dumps(tr["events"], indent=1)[:4000])
     validate(ctx, [tr], "replay")
@@ -200,7 +203,8 @@ def random_cfg(rng, max_models: int = 4, max_steps: int = 6, kinds=("obs", "set"
         start = pts[0] - 1
     pipe = []
     uid = 0
-    buckets_by_kind = {"set": ["photon", "pixel", "signal", "scene", "data"], "add": ["photon", "charge", "pixel", "signal"]}
+    buckets_by_kind = {"set": ["photon", "pixel", "signal", "scene", "data"],
+                       "add": ["photon", "charge", "pixel", "signal"], "padd": ["charge"]}
     for k in range(10):
         models = []
         if rng.random() < 0.6:
@@ -210,11 +214,11 @@ def random_cfg(rng, max_models: int = 4, max_steps: int = 6, kinds=("obs", "set"
                 b = rng.choice(buckets_by_kind.get(kind, ["photon"]))
                 models.append({"name": f"m{uid}", "enabled": rng.random() < 0.7, "args": random_args(rng),
                                "kind": kind, "b": b, "base": rng.randint(1, 9) + 10 * (uid % 7),
-                               "mask": rng.randint(0, (1 << n) - 1) if rng.random() < 0.5 else (1 << 12) - 1})
+                               "mask": rng.randint(0, (1 << min(n, 20)) - 1) if rng.random() < 0.5 else -1})
         pipe.append(models)
     if rng.random() < p_img:
         pipe[8].append({"name": "imgw", "enabled": True, "args": "i", "kind": "set", "b": "image",
-                        "base": 60, "mask": (1 << 12) - 1})
+                        "base": 60, "mask": -1})
     prior = {b: -1 for b in ("photon", "charge", "pixel", "signal", "image", "scene", "data")}
     if rng.random() < prior_p:
         for b in prior:
